@@ -131,6 +131,30 @@ func RunAbmf(env *Env, prefix, in, out string) error {
 				"balance": pr[0], "a": pr[1], "b": pr[2], "ans": got, "left": left})
 		}
 	}
+	// a peer that keeps its connection and stays quiet for a while before it asks again (first worker only)
+	if len(behs) > 0 && strings.HasSuffix(prefix, "000") {
+		env.ResetState(0)
+		su := supi("8")
+		env.PutAccount(su, 1, "50", "1")
+		ask := func(num uint32) bool {
+			ans, _ := cli.Exchange(charging_code.ABMF_CreditControl, charging_code.Re_interface,
+				func(realm, host datatype.DiameterIdentity) any {
+					return &charging_datatype.AccountDebitRequest{
+						SessionId: "vfidle", OriginHost: "vfclient", OriginRealm: "go-diameter", DestinationRealm: realm, DestinationHost: host,
+						EventTimestamp: datatype.Time(time.Now()), UserName: "CHF",
+						SubscriptionId: &charging_datatype.SubscriptionId{SubscriptionIdType: charging_datatype.END_USER_IMSI, SubscriptionIdData: datatype.UTF8String(su[5:])},
+						CcRequestNumber: datatype.Unsigned32(num), CcRequestType: typeNum["update"], RequestedAction: actionNum["debit"],
+						MultipleServicesCreditControl: &charging_datatype.MultipleServicesCreditControl{RatingGroup: 1,
+							RequestedServiceUnit: &charging_datatype.RequestedServiceUnit{CCTotalOctets: 1}},
+					}
+				}, 3*time.Second)
+			return ans != nil
+		}
+		first := ask(1)
+		time.Sleep(4 * time.Second)
+		second := ask(2)
+		emit(map[string]any{"trace": behs[0].ID + "-idle", "seq": 0, "action": "idle", "quiet_ms": 4000, "first": first, "second": second})
+	}
 	for _, b := range behs {
 		env.ResetState(0)
 		var keys []string
